@@ -8,20 +8,18 @@
      doc_op ot s       the documented effect of the five requestable operations
      req / prog_of     the callers of the state machine as programs over the actions ALookup (manager
                        map), ATry ev (TryTransition, takes the transition mutex), ATeardown (takes it
-                       too), AForce s (Sm.SetState / setState: no mutex), ARead (CurrentState)
+                       too), AForce s (Environment.ForceError: takes it too, refused on DONE; before
+                       the repair of C01-a/b/c this was an unlocked Sm.SetState), ARead (CurrentState)
      oracle            which hooks / task commands / task releases fail (arbitrary)
      run_seq           sequential histories;  trace_edges: every state write of the trace as (old, new)
      runs sched c      concurrent semantics: the scheduler picks a thread per step; a locked section
                        takes three steps (lock + hooks before the state write; the state write;
                        remaining hooks + unlock); unlocked actions take one step at any time
-     c_edges           every state change of a concurrent run; c_hazard: "a forced state happened while
-                       somebody held the transition mutex, or on a DONE environment"
+     c_edges           every state change of a concurrent run
      api_req q         q goes through the manager's map (ControlEnvironment, DestroyEnvironment,
                        TeardownEnvironment, ODC / END_OF_STREAM callers)   [proofs/EnvFsm_proofs.v]
      req_ok q          a bare TryTransition uses an event name some Transition constructor carries
-     J w               DONE implies unlisted (established by teardown, kept by every action)
-     seq_safe l w      holders of a *Environment (watcher, auto-stop, bare TryTransition) only act while
-                       the environment is listed *)
+     J w               DONE implies unlisted (established by teardown, kept by every action) *)
 From Verif Require Import Common EnvFsmTypes Gen_EnvEvents Gen_EnvCan EnvFsm EnvFsm_proofs EnvFsmConc_proofs.
 Open Scope N_scope.
 
@@ -69,32 +67,25 @@ Print Assumptions C01_exit_recover_unreachable.
 
 (* ---- sequential histories ---- *)
 
-(* every state write of every history of requests, with every combination of failing hooks, task
-   commands and releases, is an edge of the documented graph (or rewrites the same state) *)
+(* every state write of every history of requests of every kind of caller (API, watcher, auto-stop
+   timer, bare TryTransition, also through a stale handle), with every combination of failing hooks,
+   task commands and releases, is an edge of the documented graph (or rewrites the same state) *)
 Theorem C01_graph_seq :
   forall (l : list (req * oracle)),
-    Forall (fun qo => req_ok (fst qo)) l -> forall w : world, J w -> seq_safe l w ->
+    Forall (fun qo => req_ok (fst qo)) l -> forall w : world, J w ->
     edges_ok (trace_edges (w_st w) (snd (run_seq l w))) = true /\
     trace_final (w_st w) (snd (run_seq l w)) = w_st (fst (run_seq l w)) /\
     J (fst (run_seq l w)).
 Proof. exact run_seq_graph. Qed.
 Print Assumptions C01_graph_seq.
 
-(* ... in particular for every history of API requests, without any side condition *)
-Theorem C01_graph_api_histories :
-  forall (l : list (req * oracle)) (w : world),
-    Forall (fun qo => api_req (fst qo)) l -> J w ->
-    edges_ok (trace_edges (w_st w) (snd (run_seq l w))) = true /\
-    trace_final (w_st w) (snd (run_seq l w)) = w_st (fst (run_seq l w)) /\
-    J (fst (run_seq l w)).
-Proof. exact api_seq_graph. Qed.
-Print Assumptions C01_graph_api_histories.
-
-(* DONE is terminal: no API request does anything to an environment that is DONE *)
+(* DONE is terminal: whatever is requested of a DONE environment, by whatever caller, no hook runs,
+   no task command is sent and the state stays DONE *)
 Theorem C01_done_terminal_seq :
-  forall (l : list (req * oracle)) (w : world),
-    Forall (fun qo => api_req (fst qo)) l -> J w -> w_st w = sDONE -> run_seq l w = (w, []).
-Proof. exact api_done_terminal. Qed.
+  forall (l : list (req * oracle)),
+    Forall (fun qo => req_ok (fst qo)) l -> forall w : world, w_st w = sDONE ->
+    w_st (fst (run_seq l w)) = sDONE /\ snd (run_seq l w) = [].
+Proof. exact run_seq_done. Qed.
 Print Assumptions C01_done_terminal_seq.
 
 (* a request that is not legal in the current state runs none of its hooks, sends no task command
@@ -102,7 +93,7 @@ Print Assumptions C01_done_terminal_seq.
    which is the state reported; the caller gets an error (Aborted) *)
 Theorem C01_illegal_inert :
   forall o ot ev w,
-    w_listed w = true -> make_transition ot = Some ev -> doc_op ot (w_st w) = None ->
+    J w -> w_listed w = true -> make_transition ot = Some ev -> doc_op ot (w_st w) = None ->
     (forall x, In x (snd (run_req o (QControl ot) w)) -> own_item ev x = false) /\
     (forall e, ~ In (Body e) (snd (run_req o (QControl ot) w))) /\
     fst (fst (run_req o (QControl ot) w)) = mkWorld sERROR true /\
@@ -112,10 +103,11 @@ Proof. exact control_illegal_inert. Qed.
 Print Assumptions C01_illegal_inert.
 
 (* any ControlEnvironment whose TryTransition returns an error (cancelled by a hook, failed task
-   command, failing enter / after hook, event not enabled) ends in ERROR, reported as such *)
+   command, failing enter / after hook, event not enabled) ends in ERROR, reported as such, and is
+   answered Aborted *)
 Theorem C01_failed_is_error :
   forall o ot ev w,
-    w_listed w = true -> make_transition ot = Some ev ->
+    J w -> w_listed w = true -> make_transition ot = Some ev ->
     sec_err (fsm_section env_events api_bodyful o (w_st w) ev) = true ->
     fst (fst (run_req o (QControl ot) w)) = mkWorld sERROR true /\
     snd (snd (fst (run_req o (QControl ot) w))) = Some sERROR /\
@@ -126,7 +118,7 @@ Print Assumptions C01_failed_is_error.
 (* ... and one that returns no error ends in the documented destination, reported as such *)
 Theorem C01_success_is_documented :
   forall o ot ev w,
-    w_listed w = true -> make_transition ot = Some ev ->
+    J w -> w_listed w = true -> make_transition ot = Some ev ->
     sec_err (fsm_section env_events api_bodyful o (w_st w) ev) = false ->
     exists d, doc_op ot (w_st w) = Some d /\ fst (run_req o (QControl ot) w) = (mkWorld d true, (0, Some d)).
 Proof. exact control_success_documented. Qed.
@@ -143,8 +135,8 @@ Print Assumptions C01_refused_inert.
 
 (* ---- concurrent callers, every schedule ---- *)
 
-(* at most one transition or teardown is in progress at any instant (every prefix of every schedule
-   is a schedule), and the transition mutex is held exactly while one is: lock discipline *)
+(* at most one transition, teardown or forced state is in progress at any instant (every prefix of
+   every schedule is a schedule), and the transition mutex is held exactly while one is *)
 Theorem C01_one_at_a_time :
   forall sched w (ths : list (prog * oracle)),
     (busy_count (runs sched (init_c w ths)) <= 1)%nat /\
@@ -152,46 +144,44 @@ Theorem C01_one_at_a_time :
 Proof. exact mutual_exclusion. Qed.
 Print Assumptions C01_one_at_a_time.
 
-(* full statements over concurrent API requests; the faithful model of the unchanged code refutes both *)
+(* the full statements over concurrent API requests.  Both were refuted by the faithful model of the
+   code as it was (C01-b: ERROR forced without the transition mutex was overwritten by a running
+   transition; C01-a: a stale handle forced DONE -> ERROR); with the forced state taken under the
+   mutex and refused on DONE (Environment.ForceError) they are theorems *)
 Definition C01_graph_sched_statement : Prop := graph_sched_statement.
 Definition C01_done_terminal_statement : Prop := done_terminal_statement.
 
-(* C01-b: ControlEnvironment forces ERROR without the transition mutex; landing inside another
-   caller's CONFIGURE it is overwritten: DEPLOYED -> ERROR -> CONFIGURED (witness wit_force_race) *)
-Theorem C01_graph_sched_refuted : ~ C01_graph_sched_statement.
-Proof. exact graph_sched_refuted. Qed.
-Print Assumptions C01_graph_sched_refuted.
+Theorem C01_graph_sched : C01_graph_sched_statement.
+Proof. exact graph_sched_holds. Qed.
+Print Assumptions C01_graph_sched.
 
-(* C01-a: a ControlEnvironment that looked the environment up before a teardown unlisted it
-   executes afterwards and forces DONE -> ERROR (witness wit_stale) *)
-Theorem C01_done_terminal_refuted : ~ C01_done_terminal_statement.
-Proof. exact done_terminal_refuted. Qed.
-Print Assumptions C01_done_terminal_refuted.
+Theorem C01_done_terminal_sched : C01_done_terminal_statement.
+Proof. exact done_terminal_holds. Qed.
+Print Assumptions C01_done_terminal_sched.
 
-(* both hold for every schedule of every set of requests under the exact missing hypothesis: no
-   forced state lands inside somebody's locked section or on a DONE environment *)
-Theorem C01_graph_sched_partial :
+(* the same for every schedule of every set of requests of every kind of caller: every state change
+   is a documented edge, the changes are chained from the initial to the current state, none leaves
+   DONE, DONE implies unlisted *)
+Theorem C01_graph_sched_all_callers :
   forall sched (reqs : list (req * oracle)) w,
     Forall (fun qo => req_ok (fst qo)) reqs -> J w ->
-    c_hazard (runs sched (init_c w (req_threads reqs))) = false ->
     edges_ok (c_edges (runs sched (init_c w (req_threads reqs)))) = true /\
     chained (w_st w) (c_edges (runs sched (init_c w (req_threads reqs))))
             (w_st (c_w (runs sched (init_c w (req_threads reqs))))) /\
     (forall e, In e (c_edges (runs sched (init_c w (req_threads reqs)))) -> fst e <> sDONE) /\
     J (c_w (runs sched (init_c w (req_threads reqs)))).
 Proof. exact graph_sched_reqs. Qed.
-Print Assumptions C01_graph_sched_partial.
+Print Assumptions C01_graph_sched_all_callers.
 
-(* serialisation: under the same hypothesis every schedule is an atomic execution (one whole
-   action - a locked section is one action - at a time, each seeing the world left by the previous
-   one) of the same threads, in the order in which the sections commit *)
-Theorem C01_serial_refines_seq_partial :
+(* serialisation: every schedule is an atomic execution (one whole action - a locked section is one
+   action - at a time, each seeing the world left by the previous one) of the same threads, in the
+   order in which the sections commit *)
+Theorem C01_serial_refines_seq :
   forall sched (reqs : list (req * oracle)) w,
-    c_hazard (runs sched (init_c w (req_threads reqs))) = false ->
     exists order, subseq order sched /\
       abs (runs sched (init_c w (req_threads reqs))) = run_atomic order (w, req_threads reqs).
 Proof. exact serial_refinement_reqs. Qed.
-Print Assumptions C01_serial_refines_seq_partial.
+Print Assumptions C01_serial_refines_seq.
 
 (* ... and the atomic execution of one request alone is the sequential semantics of C01_graph_seq *)
 Theorem C01_atomic_single_is_sequential :
@@ -202,7 +192,7 @@ Proof. exact atomic_single. Qed.
 Print Assumptions C01_atomic_single_is_sequential.
 
 (* the hypotheses are satisfiable by non-trivial runs: a history with a failing task command, an
-   illegal request and a teardown; a concurrent run without hazard in which a caller waits *)
+   illegal request and a teardown; a concurrent run in which a caller waits *)
 Example C01_nonvacuous :
   let l := [(QControl oDEPLOY, no_faults); (QControl oCONFIGURE, mkOracle [] [eCONFIGURE] false false);
             (QControl oSTART_ACTIVITY, no_faults); (QDestroy false false false, no_faults);
@@ -212,9 +202,17 @@ Example C01_nonvacuous :
   trace_edges (w_st w) (snd (run_seq l w)) = [(sSTANDBY, sDEPLOYED); (sDEPLOYED, sERROR); (sERROR, sDONE)] /\
   let c := runs [0; 1; 0; 0; 1; 0; 0; 1; 1; 1; 1; 1; 1; 1; 1]%nat
                 (init_c w (req_threads [(QControl oDEPLOY, no_faults); (QControl oCONFIGURE, no_faults)])) in
-  c_hazard c = false /\ c_edges c = [(sDEPLOYED, sCONFIGURED); (sSTANDBY, sDEPLOYED)] /\
+  c_edges c = [(sDEPLOYED, sCONFIGURED); (sSTANDBY, sDEPLOYED)] /\
   forallb th_done (c_threads c) = true.
 Proof.
   cbv zeta. split; [repeat constructor|]. split; [intro E; discriminate E|].
   split; [vm_compute; reflexivity|]. vm_compute. repeat split; reflexivity.
 Qed.
+
+(* the schedules that refuted the two statements before the repair, as regression examples: the
+   stale handle now leaves DONE alone (Aborted / DONE), the forced ERROR now waits for the running
+   CONFIGURE and follows it (DEPLOYED -> CONFIGURED -> ERROR) *)
+Example C01_old_witnesses :
+  (c_edges wit_stale = [(sCONFIGURED, sDONE)] /\ w_st (c_w wit_stale) = sDONE) /\
+  (c_edges wit_force_race = [(sCONFIGURED, sERROR); (sDEPLOYED, sCONFIGURED)] /\ w_st (c_w wit_force_race) = sERROR).
+Proof. vm_compute. repeat split; reflexivity. Qed.
